@@ -44,11 +44,46 @@ def _announced(ctx, spec, c, args, extra):
     raise AssertionError(kind)
 
 
-def _transports(ctx, c, direction, length):
-    """the real device classes over the stub bindings must hand over exactly these objects"""
+class _FailFirst:
+    """first command on each transport completes with CHECK CONDITION (e.g. UNIT ATTENTION), later ones with GOOD"""
+
+    def __init__(self):
+        self.n = {"sgio": 0, "iscsi": 0}
+
+    def sgio(self, env, call):
+        from stubs import env as E
+        self.n["sgio"] += 1
+        if self.n["sgio"] == 1:
+            raise E.CheckConditionError(bytearray(b"\x70\x00\x06\x00\x00\x00\x00\x0a\x00\x00\x00\x00\x29\x00\x00\x00\x00\x00"))
+        return 0
+
+    def iscsi(self, env, task):
+        self.n["iscsi"] += 1
+        task.status = 0
+        if self.n["iscsi"] == 1:
+            task.status = 2
+            task.raw_sense = bytearray(b"\x70\x00\x06\x00\x00\x00\x00\x0a\x00\x00\x00\x00\x29\x00\x00\x00\x00\x00")
+
+
+def _transports(ctx, c, direction, length, retry=True):
+    """the real device classes over the stub bindings must hand over exactly these objects -- also when the same
+    command object is executed again after a CHECK CONDITION (the usual retry after a UNIT ATTENTION)"""
     from stubs import env
     sd, idv = env.install()
-    env.ENV.reset()
+    env.ENV.reset(_FailFirst() if retry else None)
+    before = (c.cdb, c.dataout, c.datain, blen(c.datain), blen(c.dataout) if _is_buffer(c.dataout) else None)
+    if retry:
+        d0 = sd.SCSIDevice("/dev/sg0")
+        ctx.attempt(d0.execute, c)
+        i0 = idv.ISCSIDevice("iscsi://host/target/0", "iqn.test")
+        ctx.attempt(i0.execute, c)
+        ctx.check("a failed execution leaves the command's cdb and buffers as they were",
+                  c.cdb is before[0] and c.dataout is before[1] and c.datain is before[2])
+        ctx.check("a failed execution does not change the data-in buffer length", blen(c.datain) == ctx.oracle(before[3]))
+        if before[4] is not None:
+            ctx.check("a failed execution does not change the data-out buffer length", blen(c.dataout) == ctx.oracle(before[4]))
+        env.ENV.sgio_calls[:] = []
+        env.ENV.iscsi_tasks[:] = []
     dev = sd.SCSIDevice("/dev/sg0")
     dev.execute(c)
     call = env.ENV.sgio_calls[-1]
